@@ -11,10 +11,10 @@ from .c08 import series, lookup, union_offsets
 FUNCS = ['pyg_base._pandas:df_index', 'pyg_base._pandas:_df_index', 'pyg_base._pandas:_np_index', 'pyg_base._pandas:_index', 'pyg_base._pandas:_list', 'pyg_base._pandas:df_reindex',
          'pyg_base._pandas:_df_reindex', 'pyg_base._pandas:df_sync', 'pyg_base._pandas:presync.wrapped', 'pyg_base._pandas:_nona', 'pyg_base._pandas:_df_fillna', 'pyg_base._loop:loops._wrapped',
          'pyg_base._reducer:reducing.wrapped', 'pyg_base._reducer:reducer']
-BOUNDS = dict(collections = '2..3 Series of 0..2 rows (thorough 3) with symbolic stamps in a common 7-day window and symbolic values incl. NaN, inside a list, a dict, or a dict holding a nested list, '
+BOUNDS = dict(frames = 'lists of two frames of 2..3 columns and 0..1 rows (thorough 2) plus a string, every column policy ij / oj / lj / rj and index policy', collections = '2..3 Series of 0..2 rows (thorough 3) with symbolic stamps in a common 7-day window and symbolic values incl. NaN, inside a list, a dict, or a dict holding a nested list, '
                             'mixed with a scalar, a string and None', policies = 'join in {ij, oj, lj, rj, explicit index}, fill method in {None, ffill, bfill}',
               arrays = 'collections of 2..3 bare arrays of symbolic lengths 0..3 with symbolic cells, every join policy')
-OUTSIDE = ['multi-column frames and the column alignment (df_columns / df_recolumn)', 'tz-aware indices', 'more than 3 rows']
+OUTSIDE = ['frames with more than 3 columns or more than 2 rows, single-column frames, frames with repeated column names', 'tz-aware indices', 'more than 3 rows']
 ASSUMPTIONS = ['pandas replaced by the minipd model, validated against the real pandas each run (intersection / union, reindex with method and limit as an as-of join on a sorted index, masks)']
 
 JOINS = ['ij', 'oj', 'lj', 'rj']
@@ -111,6 +111,67 @@ def h_arrays(join, k):
             c.check('arrays-are-aligned-at-the-end', len(got) == n and all(feq(g, w) for g, w in zip(got, want)))
     return h
 
+# ---------------------------------------------------------------- multi-column frames: common column set
+from .c08 import frame, frame_cells, COLSETS
+
+def h_frames_sync(na, nb, ia, ib, join, columns, method = None):
+    def h(c):
+        Pm = P(); base = c.day('base')
+        A, oa, ca = frame(c, 'A', na, base, COLSETS[ia]); B, ob, cb = frame(c, 'B', nb, base, COLSETS[ib])
+        r = Pm.df_sync([A, 'text', B], join = join, columns = columns, method = method)
+        c.check('structure', isinstance(r, list) and len(r) == 3 and r[1] == 'text')
+        sa, sb = list(COLSETS[ia]), list(COLSETS[ib])
+        wantcols = sorted(set(sa) & set(sb)) if columns == 'ij' else sorted(set(sa) | set(sb)) if columns == 'oj' else sa if columns == 'lj' else sb
+        offs = want_offsets([oa, ob], join)
+        for f, o_, cols_ in ((r[0], oa, ca), (r[2], ob, cb)):
+            got = frame_cells(f)
+            c.check('frames-are-put-onto-the-matching-common-column-set', sorted(got.keys()) == sorted(wantcols))
+            for col in wantcols:
+                c.check('frame-on-the-common-index', len(got[col]) == len(offs) and all(key(g[0]) == key(base) + o * core.US_DAY for g, o in zip(got[col], offs)))
+                for g, o in zip(got[col], offs):
+                    v = (asof(o_, cols_[col], o, method) if method else lookup(o_, cols_[col], o)) if col in cols_ else None
+                    if method is None or col not in cols_: c.check('cell-intact-or-nan', feq(g[1], float('nan') if v is None else v))
+    return h
+
+def gate_frames_sync(stride = 1):
+    """the real df_sync on lists of two frames under the real pandas vs under the minipd frame model"""
+    import pandas as rpd, itertools, pyg_base._pandas as RP
+    nan = float('nan'); grid = [_rdt.datetime(2020, 1, 1) + _rdt.timedelta(days = i) for i in range(3)]
+    rowsets = [(), (0,), (0, 1), (1, 2)]
+    cases = []
+    for ia, ib in itertools.product(range(4), repeat = 2):
+        for ra, rb in itertools.product(rowsets, repeat = 2):
+            va = {col: [float(10 * j + i) if (i + j) % 3 else nan for i in range(len(ra))] for j, col in enumerate(COLSETS[ia])}
+            vb = {col: [float(100 + 10 * j + i) for i in range(len(rb))] for j, col in enumerate(COLSETS[ib])}
+            cases.append((ra, va, rb, vb))
+    cases = cases[::stride]
+    def run(Pm, mk):
+        out = []
+        for ra, va, rb, vb in cases:
+            res = []
+            for join in JOINS:
+                for cols in ('ij', 'oj', 'lj', 'rj'):
+                    for method in (None, 'ffill'):
+                        A = mk(va, [grid[i] for i in ra]); B = mk(vb, [grid[i] for i in rb])
+                        try:
+                            r = Pm.df_sync([A, B], join = join, method = method, columns = cols); res.append([frame_cells(r[0]), frame_cells(r[1])])
+                        except Exception as e: res.append('raised %s' % type(e).__name__)
+            out.append(res)
+        return out
+    real = run(RP, lambda v, i: rpd.DataFrame({k: list(x) for k, x in v.items()}, index = rpd.DatetimeIndex(i), dtype = float))
+    Pm = setup_pandas()
+    model = run(Pm, lambda v, i: minipd.DataFrame({k: list(x) for k, x in v.items()}, index = list(i)))
+    n = 0
+    def same1(x, y):
+        if sorted(x.keys()) != sorted(y.keys()): return False
+        return all(len(x[c]) == len(y[c]) and all(p[0] == q[0] and (p[1] == q[1] or (p[1] != p[1] and q[1] != q[1])) for p, q in zip(x[c], y[c])) for c in x)
+    for case, ra_, ma_ in zip(cases, real, model):
+        for x, y in zip(ra_, ma_):
+            n += 1
+            ok = (isinstance(x, str) and isinstance(y, str)) or (not isinstance(x, str) and not isinstance(y, str) and same1(x[0], y[0]) and same1(x[1], y[1]))
+            if not ok: return False, dict(mismatch = str(case)[:300], real = str(x)[:400], model = str(y)[:400])
+    return True, dict(comparisons = n, cases = len(cases))
+
 def obligations(tier):
     q = tier == 'quick'; N = 2 if q else 3
     S = setup_pandas
@@ -127,6 +188,16 @@ def obligations(tier):
                 for shape in ('list3', 'nested'):
                     obs.append(Ob('sync.%s.%s.%s.%s' % (shape, join, method, 'x'.join(map(str, trip))), h_sync(trip, shape, join, method), setup = S, budget_s = 300 if q else 1500,
                                   desc = 'df_sync of three Series (%s rows) in a %s, join %s, method %s' % (trip, 'list' if shape == 'list3' else 'dict with a nested list', join, method)))
+    obs.append(Ob('gate.frame-model', (lambda: gate_frames_sync(3)) if q else gate_frames_sync, engine = 'gate', budget_s = 900, desc = 'df_sync of frames under the DataFrame model == under the real pandas on an exhaustive small domain'))
+    for columns in ('ij', 'oj', 'lj', 'rj'):
+        for join in (('ij', 'oj') if q else JOINS):
+            for ia, ib in ([(1, 2), (3, 0)] if q else [(i, j) for i in range(4) for j in range(4)]):
+                for na, nb in ([(1, 1)] if q else [(1, 1), (2, 1), (0, 2)]):
+                    obs.append(Ob('frames.%s-cols.%s.%s.%s.%dx%d' % (columns, ''.join(COLSETS[ia]), ''.join(COLSETS[ib]), join, na, nb), h_frames_sync(na, nb, ia, ib, join, columns), setup = S, budget_s = 300 if q else 1500,
+                                  desc = 'df_sync of frames with columns %s and %s: column policy %s, index policy %s' % (COLSETS[ia], COLSETS[ib], columns, join)))
+    for na, nb in [(0, 0), (0, 1), (1, 0)]:
+        for method in (None, 'ffill'):
+            obs.append(Ob('frames.empty.%dx%d.%s' % (na, nb, method), h_frames_sync(na, nb, 1, 2, 'oj', 'oj', method), setup = S, budget_s = 300, desc = 'df_sync of frames without rows keeps the common column set (method %s)' % method))
     for method in (None, 'ffill', 'bfill'):
         for n, m in ([(1, 2), (2, 2)] if q else [(1, 2), (2, 2), (3, 2), (2, 3)]):
             obs.append(Ob('reindex.explicit.%s.%dx%d' % (method, n, m), h_reindex_explicit(n, m, method), setup = S, budget_s = 300, desc = 'df_reindex onto an explicitly supplied index, method %s' % method))
